@@ -498,7 +498,7 @@ def correspond(tier, seed, model_ok):
     out = Outcome()
     K = _cl.consts()
     r = Rng(seed)
-    n, nops = (72, 30) if tier == "quick" else (1500, 50)
+    n, nops = (72, 30) if tier == "quick" else (1000, 50)
     cases = [gen_case(r.fork(i), nops if not r.chance(1, 10) else nops // 3, K) for i in range(n)]
     corpus = common.load_corpus(PROP)
     pairs = run_cases(corpus + cases, model_ok, out, "q", K, selft=True)
